@@ -555,6 +555,7 @@ func init() {
 		return nil
 	})
 	reg("(*sync.Map).Load", func(fr *frame, a []value) value {
+		fr.ex.preemptPoint()
 		m := fr.ex.syncMap(a[0].(*value))
 		if e := m.find(fr.ex, a[1]); e != nil {
 			return tuple{e.v, true}
@@ -562,6 +563,7 @@ func init() {
 		return tuple{iface{}, false}
 	})
 	reg("(*sync.Map).Store", func(fr *frame, a []value) value {
+		fr.ex.preemptPoint()
 		fr.ex.syncMap(a[0].(*value)).insert(fr.ex, a[1], a[2])
 		return nil
 	})
@@ -570,6 +572,7 @@ func init() {
 		return nil
 	})
 	reg("(*sync.Map).LoadOrStore", func(fr *frame, a []value) value {
+		fr.ex.preemptPoint()
 		m := fr.ex.syncMap(a[0].(*value))
 		if e := m.find(fr.ex, a[1]); e != nil {
 			return tuple{e.v, true}
